@@ -4,6 +4,7 @@ import (
 	"bytes"
 	"encoding/hex"
 	"fmt"
+	"os"
 	"runtime"
 	"sync"
 	"testing"
@@ -430,7 +431,16 @@ func TestC22(t *testing.T) {
 		"conditional on acceptance: a non-canonical block/header the receiving decoder rejects is counted, not flagged",
 		"the 90 s waits in the live route are harness liveness bounds; a timeout is reported as inconclusive (harness error), never as a violation",
 	)
+	harnessTimeout := ""
+	defer func() {
+		if harnessTimeout != "" {
+			t.Errorf("harness (inconclusive, not a violation): %s", harnessTimeout)
+		}
+	}()
 	rec.Check(func(rt *rapid.T) {
+		if harnessTimeout != "" {
+			return
+		}
 		g := GenBlock(rt, GenOpts{MaxTx: 12})
 		s := newServed(g)
 		c := &c22{rec: rec, rt: rt}
@@ -507,9 +517,15 @@ func TestC22(t *testing.T) {
 		}
 		rec.Eval()
 		if res.timeout {
+			// harness liveness bound hit: inconclusive. Do not fail the rapid case (it
+			// would shrink through many 90 s sessions); stop the run instead.
 			rec.Class("live_timeout")
-			t.Logf("goroutines at timeout:\n%s", clipStr(res.dump, 20000))
-			rt.Fatalf("harness: live %s session did not complete within 90 s (inconclusive, not a violation): %d/%d arrivals", route, len(res.arrivals), len(blocks))
+			if harnessTimeout == "" {
+				harnessTimeout = fmt.Sprintf("live %s session did not complete within 90 s: %d/%d arrivals, blocks: %s\ngoroutines:\n%s",
+					route, len(res.arrivals), len(blocks), blocks[0].g.Desc(), clipStr(res.dump, 60000))
+				fmt.Fprintln(os.Stderr, "HARNESS-TIMEOUT "+clipStr(harnessTimeout, 3000))
+			}
+			return
 		}
 		if res.err != nil && len(res.arrivals) < len(blocks) {
 			rec.Class("live_" + mode + "_session_error")
